@@ -859,6 +859,21 @@ pub fn scenarios(prop: &str, tier: &str) -> Vec<Scenario> {
             r.eager = false;
             s.readers = vec![r];
             v.push(s);
+            // a lagging follower (broadcast capacity 2): while its stream stays open nothing may be missing
+            for (nm, tail, pre) in [("lag-tail", true, 0usize), ("lag-replay", false, 2usize)] {
+                let mut s = base(nm);
+                s.cap_broadcast = Some(2);
+                s.cap_delivery = Some(1);
+                s.pre = (0..pre).map(|_| fs("h", 0, "")).collect();
+                s.writers = vec![vec![fs("a", 0, ""), fs("a", 0, ""), fs("a", 0, ""), fs("a", 0, "")]];
+                let mut r = rd("on", tail, None, None, None);
+                r.eager = false;
+                s.readers = vec![r];
+                if !thorough {
+                    s.bound = Some(1);
+                }
+                v.push(s);
+            }
             if thorough {
                 let mut s = base("h1-2w1");
                 s.pre = vec![fs("h", 0, "")];
